@@ -256,7 +256,7 @@ def gen_aggregate_case(rng):
         # the first variant), confidence 0.0 or in (0, 1]
         pos = sorted(rng.sample(range(0, n), rng.randint(0, min(n, 3)))) if n > 1 else []
         bps = [(p, sorted(rng.sample(range(k), rng.randint(2, k))),
-                0.0 if rng.random() < 0.3 else rng.choice([1.0, 0.999, 0.9, 0.6, 0.5, 0.3, 0.01, 1e-9, rng.random()]))
+                0.0 if rng.random() < 0.3 else rng.choice([1.0, 0.999, 0.9901, 0.99, 0.9899, 0.9, 0.6, 0.5001, 0.5, 0.4999, 0.3, 0.01, 1e-9, rng.random()]))
                for p in pos]
         blocks.append(dict(haps=haps, bps=bps))
         starts.append(off)
@@ -297,7 +297,7 @@ def gen_cuts_case(rng):
     bps = []
     for i, p in enumerate(pos):
         conf = 0.0 if (i == 0 and wellformed) or rng.random() < 0.3 else \
-            rng.choice([1.0, 0.999, 0.95, 0.7, 0.5, 0.4, 0.1, 1e-5, 1e-300, rng.random()])
+            rng.choice([1.0, 0.999, 0.9901, 0.99, 0.9899, 0.95, 0.7, 0.5001, 0.5, 0.4999, 0.4, 0.1, 1e-5, 1e-300, rng.random()])
         bps.append((p, sorted(rng.sample(range(k), rng.randint(2, k))), conf))
     return dict(k=k, bps=bps, sens=rng.randrange(6), wellformed=wellformed)
 
@@ -635,7 +635,7 @@ def gen_stub_result(rng, inst, plant_adjacent_cut=False):
     rows = [[cols[p][h] for p in range(n)] for h in range(k)]
     bps = [(0, list(range(k)), 0.0)]
     for p in pos:
-        conf = 0.0 if (p in sure or rng.random() < 0.35) else rng.choice([1.0, 0.99, 0.8, 0.5, 0.45, 0.1, 1e-6])
+        conf = 0.0 if (p in sure or rng.random() < 0.35) else rng.choice([1.0, 0.9901, 0.99, 0.9899, 0.8, 0.5001, 0.5, 0.4999, 0.45, 0.1, 1e-6])
         bps.append((p, sorted(rng.sample(range(k), rng.randint(2, k))), conf))
     return rows, bps
 
